@@ -8,6 +8,7 @@
 (*  "strings" all strings over a class alphabet up to length LMax           *)
 (*  "bounds"  all pairs of boundary-class operands (BigInt) x scales        *)
 (*  "floats"  every exponent field of f32 / f64 x fraction class x sign     *)
+(*  "round"   every shift 1..38 x head class x remainder class x sign x scale *)
 EXTENDS BigInt, TLC, Json
 CONSTANTS Kind, NMax, DMax, LMax, ScaleSet
 
@@ -34,6 +35,7 @@ Init ==
        [] Kind = "strings" -> a = <<>> /\ b = 0
        [] Kind = "bounds" -> a \in {[c |-> c, f |-> f] : c \in Signed, f \in ScaleSet} /\ b = 0
        [] Kind = "floats" -> a \in 0..2047 /\ b = 0
+       [] Kind = "round" -> a \in 1..38 /\ b = 0
 Next ==
   CASE Kind = "kernel" -> out = "-" /\ \E d \in 1..DMax : out' = ToJson(<<a, d>>) /\ UNCHANGED <<a, b>>
     [] Kind = "small" -> out = "-" /\ \E yc \in YSmall, s \in {-1, 1}, yf \in 0..1, n \in 0..2 :
@@ -43,6 +45,8 @@ Next ==
                            out' = ToJson([x |-> [s |-> a.c.s, m |-> a.c.m, f |-> a.f], y |-> [s |-> y.c.s, m |-> y.c.m, f |-> y.f]]) /\ UNCHANGED <<a, b>>
     [] Kind = "floats" -> out = "-" /\ \E w \in {32, 64}, fc \in 0..(NMax - 1), sg \in {0, 1} :
                            (w = 64 \/ a <= 255) /\ out' = ToJson(<<w, sg, a, fc>>) /\ UNCHANGED <<a, b>>
+    [] Kind = "round" -> out = "-" /\ \E hc \in 0..3, rc \in 0..5, sg \in {-1, 1}, f \in ScaleSet :
+                           out' = ToJson(<<a, hc, rc, sg, f>>) /\ UNCHANGED <<a, b>>
 Spec == Init /\ [][Next]_vars
 Emit == out = "-" \/ PrintT("VEC " \o out)
 =======================================================================
